@@ -266,6 +266,8 @@ def stress_texts(tier):
         "long-table": "| a | b |\n|---|---|\n" + "".join("| %d | [x](y) |\n" % i for i in range(big)),
         "deep-headings": "".join("#" * (1 + i % 6) + " h%d\n\n" % i for i in range(big)),
         "only-newlines": "\n" * big,
+        "long-unicode-title": "# " + "\u00e9" * 300 + "\n\ntext [l](" + "\u65e5" * 90 + ")\n",
+        "long-unicode-chain": "# " + "\u65e5" * 50 + "\n\n## " + "\u672c" * 50 + "\n\n### " + "\u8a9e" * 50 + "\n\np\n",
         "crlf-everything": "# t\r\n\r\n- a\r\n- b\r\n\r\n> q\r\n",
         "nul": "a\x00b\n\x00\n",
         "bom": "\ufeff# t\n",
@@ -273,6 +275,12 @@ def stress_texts(tier):
         "unclosed-meta": "---\nmeta: 1\n",
         "meta-only": "---\na: 1\n---\n",
         "empty": "",
+        "item-of-empty-list": "[r](n)\n\n1. 1)\n\n1.     code\nline\n3 line\n",
+        "item-of-empty-list-tail": "- -\n\n  tail\n- x\n",
+        "items-of-empty-lists": "- -\n- - -\n- x\n  - -\n\n    y\n",
+        # a multi-byte character across every byte offset near the powers of two a fixed-size cut would use
+        **{"unicode-boundary-%d" % k: "# " + "a" * k + "\u65e5\u672c\u8a9e\U0001F600\u65e5\u672c\n\n## " + "b" * (k // 2) + "\u00e9\u00e9\u00e9\n\np\n"
+           for k in list(range(58, 66)) + list(range(122, 130)) + list(range(250, 258))},
         "trailing-cr": "# title\r",
         "trailing-cr-para": "text\n\nmore\r",
         "lone-cr-middle": "a\rb\n\n# h\rz\n",
